@@ -265,7 +265,9 @@ class CSSStyleSheet(cssutils.stylesheets.StyleSheet):
             rule.cssText = self._tokensupto2(tokenizer, token)
             if rule.wellformed:
                 self.insertRule(rule)
-            return 3
+                return 3
+            # an ignored statement does not end the @import/@namespace section
+            return max(1, expected or 0)
 
         def mediarule(expected, seq, token, tokenizer):
             # parse and consume tokens in any case
@@ -273,7 +275,9 @@ class CSSStyleSheet(cssutils.stylesheets.StyleSheet):
             rule.cssText = self._tokensupto2(tokenizer, token)
             if rule.wellformed:
                 self.insertRule(rule)
-            return 3
+                return 3
+            # an ignored statement does not end the @import/@namespace section
+            return max(1, expected or 0)
 
         def pagerule(expected, seq, token, tokenizer):
             # parse and consume tokens in any case
@@ -281,7 +285,9 @@ class CSSStyleSheet(cssutils.stylesheets.StyleSheet):
             rule.cssText = self._tokensupto2(tokenizer, token)
             if rule.wellformed:
                 self.insertRule(rule)
-            return 3
+                return 3
+            # an ignored statement does not end the @import/@namespace section
+            return max(1, expected or 0)
 
         def unknownrule(expected, seq, token, tokenizer):
             # parse and consume tokens in any case
@@ -318,7 +324,9 @@ class CSSStyleSheet(cssutils.stylesheets.StyleSheet):
             rule.cssText = self._tokensupto2(tokenizer, token)
             if rule.wellformed:
                 self.insertRule(rule)
-            return 3
+                return 3
+            # an ignored statement does not end the @import/@namespace section
+            return max(1, expected or 0)
 
         # save for possible reset
         oldCssRules = self.cssRules
